@@ -1,9 +1,102 @@
 //! yv-harness-ffi C19 [--tier quick|thorough] [--seed N] [--out file] [--range lo hi]
+//!
+//! The C API of y-crdt (`/repo/yffi/src/lib.rs`) is compiled INTO this binary as a module, so that the exported
+//! `extern "C"` functions can be called directly with raw pointers, next to the native Rust API of the same yrs build.
+//! Parent mode re-executes this binary on chunks of cases (report::isolated) so that an abort inside an `extern "C"`
+//! function (a panic there cannot unwind) is observed as a "process-crashed" failure of one case.
+//! `YV_ONLY=<index>` runs one case in this process (debugging; YV_DEBUG=1 prints the script while it runs).
 #[path = "/repo/yffi/src/lib.rs"]
 #[allow(warnings)]
 mod yffi;
 #[path = "../../harness/src/rng.rs"]
+#[allow(dead_code)]
 mod rng;
 #[path = "../../harness/src/report.rs"]
+#[allow(dead_code)]
 mod report;
-fn main() { println!("ok"); }
+#[path = "../../harness/src/model.rs"]
+#[allow(dead_code)]
+mod model;
+mod c19;
+
+use std::alloc::{GlobalAlloc, Layout, System};
+use std::cell::Cell;
+use std::time::Instant;
+
+thread_local! { pub static LIVE_BYTES: Cell<i64> = const { Cell::new(0) }; pub static LIVE_BLOCKS: Cell<i64> = const { Cell::new(0) }; }
+/// Counts the bytes / blocks currently allocated by the calling thread (used by the leak probes of C19: an
+/// acquire-and-destroy pair of C API calls must leave both counters where they were).
+pub struct Counting;
+unsafe impl GlobalAlloc for Counting {
+    unsafe fn alloc(&self, l: Layout) -> *mut u8 {
+        let p = System.alloc(l);
+        if !p.is_null() { let _ = LIVE_BYTES.try_with(|c| c.set(c.get() + l.size() as i64)); let _ = LIVE_BLOCKS.try_with(|c| c.set(c.get() + 1)); }
+        p
+    }
+    unsafe fn dealloc(&self, p: *mut u8, l: Layout) {
+        System.dealloc(p, l);
+        let _ = LIVE_BYTES.try_with(|c| c.set(c.get() - l.size() as i64)); let _ = LIVE_BLOCKS.try_with(|c| c.set(c.get() - 1));
+    }
+    unsafe fn alloc_zeroed(&self, l: Layout) -> *mut u8 {
+        let p = System.alloc_zeroed(l);
+        if !p.is_null() { let _ = LIVE_BYTES.try_with(|c| c.set(c.get() + l.size() as i64)); let _ = LIVE_BLOCKS.try_with(|c| c.set(c.get() + 1)); }
+        p
+    }
+    unsafe fn realloc(&self, p: *mut u8, l: Layout, new_size: usize) -> *mut u8 {
+        let q = System.realloc(p, l, new_size);
+        if !q.is_null() { let _ = LIVE_BYTES.try_with(|c| c.set(c.get() + new_size as i64 - l.size() as i64)); }
+        q
+    }
+}
+#[global_allocator]
+static GLOBAL: Counting = Counting;
+pub fn live() -> (i64, i64) { (LIVE_BYTES.with(|c| c.get()), LIVE_BLOCKS.with(|c| c.get())) }
+
+fn main() {
+    let args: Vec<String> = std::env::args().collect();
+    if args.len() < 2 { eprintln!("usage: yv-harness-ffi C19 [--tier quick|thorough] [--seed n] [--out f] [--range lo hi]"); std::process::exit(2); }
+    let prop = args[1].clone();
+    let mut tier = "quick".to_string();
+    let mut seed: u64 = 1;
+    let mut out: Option<String> = None;
+    let mut range: Option<(u64, u64)> = None;
+    let mut probe: Option<String> = None;
+    let mut i = 2;
+    while i < args.len() {
+        match args[i].as_str() {
+            "--tier" if i + 1 < args.len() => { tier = args[i + 1].clone(); i += 1 }
+            "--seed" if i + 1 < args.len() => { seed = args[i + 1].parse().unwrap_or(1); i += 1 }
+            "--out" if i + 1 < args.len() => { out = Some(args[i + 1].clone()); i += 1 }
+            "--probe" if i + 1 < args.len() => { probe = Some(args[i + 1].clone()); i += 1 }
+            "--range" if i + 2 < args.len() => { range = Some((args[i + 1].parse().unwrap_or(0), args[i + 2].parse().unwrap_or(0))); i += 2 }
+            _ => {}
+        }
+        i += 1;
+    }
+    if prop != "C19" { eprintln!("unknown property {}", prop); std::process::exit(2); }
+    if let Some(p) = probe { std::env::set_var("YV_DEBUG", "1"); report::install_panic_hook(); unsafe { c19::run_probe(&p) }; return; }
+    report::install_panic_hook();
+    let workers: usize = std::env::var("YV_WORKERS").ok().and_then(|s| s.parse().ok()).unwrap_or(16);
+    let t0 = Instant::now();
+    if let Some((lo, hi)) = range {
+        // child of report::isolated: one thread, a slice of the cases, full report back to the parent
+        let rep = c19::run_range(&tier, seed, lo, hi);
+        std::fs::write(out.expect("--out"), serde_json::to_string(&rep.to_json_full()).unwrap()).unwrap();
+        return;
+    }
+    let rep = if let Some(only) = std::env::var("YV_ONLY").ok().and_then(|s| s.parse::<u64>().ok()) {
+        c19::run_range(&tier, seed, only, only + 1)
+    } else {
+        let mut r = report::isolated("C19", &tier, seed, c19::cases(&tier), 100, workers);
+        c19::run_probes(&mut r);
+        r.notes.extend(c19::notes());
+        r
+    };
+    let mut j = rep.to_json();
+    j["wall_s"] = serde_json::json!(t0.elapsed().as_secs_f64());
+    j["property"] = serde_json::json!(prop);
+    j["tier"] = serde_json::json!(tier);
+    j["seed"] = serde_json::json!(seed);
+    let s = serde_json::to_string_pretty(&j).unwrap();
+    match out { Some(p) => std::fs::write(p, s).unwrap(), None => println!("{}", s) }
+}
